@@ -47,6 +47,10 @@ type ckState struct {
 	Ticks     int     `json:"ticks"`
 	RspHash   uint64  `json:"rsp_hash"`
 	Problem   string  `json:"problem"`
+	// Pending is seeded by the builder with one entry per scripted request and
+	// shrinks as requests complete: a restore must replace it, not merge into
+	// the rebuilt component's initial value.
+	Pending map[string]int `json:"pending"`
 }
 
 type ckReq = modeling.Component[ckSpec, ckState, modeling.None]
@@ -129,7 +133,8 @@ func (m *ckMW) Tick() bool {
 		ord := st.Out[found].Ord
 		st.Out = append(st.Out[:found], st.Out[found+1:]...)
 		st.Done++
-		st.RspHash = mix(st.RspHash, uint64(ord))
+		delete(st.Pending, fmt.Sprintf("op%d", ord))
+		st.RspHash = mix(st.RspHash, uint64(ord), uint64(len(st.Pending)))
 
 		if d, ok := msg.(memprotocol.DataReadyRsp); ok {
 			for _, b := range d.Data {
@@ -215,6 +220,11 @@ func makeCkReq(i int, a *emem.Asm, tops []messaging.Port, il uint64, freqHz uint
 	name := fmt.Sprintf("Req%d", i)
 	comp := modeling.NewBuilder[ckSpec, ckState, modeling.None]().
 		WithEngine(a.Eng).WithFreq(timing.Freq(freqHz)).WithSpec(spec).Build(name)
+	comp.State.Pending = map[string]int{}
+	for k := range spec.Addr {
+		comp.State.Pending[fmt.Sprintf("op%d", k)] = k
+	}
+
 	comp.AddMiddleware(&ckMW{comp: comp})
 	comp.DeclarePort("Mem", memprotocol.Requester)
 	a.Reg.RegisterComponent(comp)
